@@ -52,8 +52,8 @@ Definition check_int (c : string * option Z) : bool :=
 Definition check_float_lit (c : string * bool) : bool := Bool.eqb (float_lit (fst c)) (snd c).
 
 (* (b) surfaces: mnemonic, number of parameters -> counts or exception *)
-Definition check_surface (c : (string * nat) * res (nat * nat)) : bool :=
-  res_eqb nn_eqb (surface_check (fst (fst c)) (snd (fst c))) (snd c).
+Definition check_surface (c : (string * list float) * res (nat * nat)) : bool :=
+  res_eqb nn_eqb (surface_check FS (fst (fst c)) (snd (fst c))) (snd c).
 
 (* (c) normalize_transform: entries -> length of the result or exception *)
 Definition check_normtr (c : list float * res nat) : bool :=
